@@ -307,17 +307,18 @@ def run(ctx):
     cases = matrix()
     ctx.note("matrix_size", len(cases))
     if ctx.quick:
-        # sample: every (state, mode, window) triple and every unblock action still occurs across the shards
+        # sample: every (state, mode, window, unblock) cell once; deliverable cells for every api x size > 1
         rnd = random.Random(ctx.seed)
         rnd.shuffle(cases)
         seen = set()
         pick = []
         for cse in cases:
+            deliverable = cse["state"] in ("open", "peer_eof") and (cse["window"] == "ample" or cse["unblock"] == "peer_reads")
             k = (cse["state"], cse["mode"], cse["window"], cse["unblock"])
-            k2 = (cse["state"], cse["api"], cse["role"], cse["size"])
-            if k not in seen or (k2 not in seen and len(pick) < 160):
+            if deliverable and cse["size"] > 1:
+                k = k + (cse["api"], cse["size"])  # multi-iteration deliveries: every api x size, role by chance
+            if k not in seen:
                 seen.add(k)
-                seen.add(k2)
                 pick.append(cse)
         cases = pick
     dl = ctx.deadline(35, 420)
@@ -335,7 +336,7 @@ def run(ctx):
         ctx.count("matrix_shards_complete")
     ctx.guard(run_iso, ctx, rng)
     ctx.require("calls_judged", 60)
-    ctx.require("outcome_returned", 10)
+    ctx.require("outcome_returned", 25)
     ctx.require("outcome_raised", 30)
     ctx.require("calls_parked_on_window", 8)
     ctx.require("windows_exhausted", 20)
